@@ -261,8 +261,8 @@ macro_rules! arith_harness {
 arith_harness!(c20_int_add_exact, B::Plus);
 arith_harness!(c20_int_sub_exact, B::Minus);
 arith_harness!(c20_int_mul_exact, B::Multiply);
-arith_harness!(c20_int_div_exact, B::Divide);
-arith_harness!(c20_int_mod_exact, B::Modulo);
+arith_harness!(c20_int_div_exact, B::Divide); //@solver=z3
+arith_harness!(c20_int_mod_exact, B::Modulo); //@solver=z3
 
 //@ props=C20 kind=known finding=F-C20-1
 /// KNOWN FINDING F-C20-1: integer overflow must be reported, not wrapped and not a crash: for all i64
